@@ -1,2 +1,56 @@
-Theorem C12_placeholder : True. Proof. exact I. Qed.
-Print Assumptions C12_placeholder.
+(* C12 — a battle is independent of where in the core it is placed.
+   rot_rel M k c c' : c' is the core c rotated by k cells; shift M k x = (x+k) mod M;
+   mrot : the same for whole reference states (queues shifted); Rel / Inv / guards
+   as in C02 tie the literal model (Sim.run_cycle) to the reference. *)
+From GM Require Import Base Exec Sim Emi94 Mars Rotate C12Step C12Run InvSim C02Proof C12Top.
+Open Scope N_scope.
+
+(* one step: rotating the core and the program counter rotates the result *)
+Theorem C12_step_equivariant :
+  forall M k, 0 < M -> forall fR fW c c' pc,
+    rot_rel M k c c' -> pc < M ->
+    let '(c1, s1) := step_core_g M fR fW c pc in
+    let '(c1', s1') := step_core_g M fR fW c' (shift M k pc) in
+    rot_rel M k c1 c1' /\ s1' = map (shift M k) s1.
+Proof. exact step_core_rot. Qed.
+Print Assumptions C12_step_equivariant.
+
+(* spawning k cells further yields the rotated state; then every cycle and the
+   whole run-to-completion stay rotated (same survivors, same cycle count) *)
+Theorem C12_spawn_equivariant :
+  forall cfg k, 0 < mc_M cfg -> forall t t' i off,
+    mrot (mc_M cfg) k t t' -> mwf (mc_M cfg) t ->
+    match m_spawn cfg t i off, m_spawn cfg t' i (off + k) with
+    | Some t1, Some t1' => mrot (mc_M cfg) k t1 t1' /\ mwf (mc_M cfg) t1
+    | None, None => True
+    | _, _ => False
+    end.
+Proof. exact m_spawn_rot. Qed.
+Print Assumptions C12_spawn_equivariant.
+
+Theorem C12_run_equivariant :
+  forall cfg k, 0 < mc_M cfg -> forall fuel t t',
+    mrot (mc_M cfg) k t t' -> mwf (mc_M cfg) t ->
+    mrot (mc_M cfg) k (m_until_done cfg fuel t) (m_until_done cfg fuel t').
+Proof. exact m_until_done_rot. Qed.
+Print Assumptions C12_run_equivariant.
+
+(* offsets congruent modulo the core size are the same placement *)
+Theorem C12_offset_congruent :
+  forall cfg, 0 < mc_M cfg -> forall t i off j,
+    m_spawn cfg t i (off + j * mc_M cfg) = m_spawn cfg t i off.
+Proof. exact m_spawn_congruent. Qed.
+Print Assumptions C12_offset_congruent.
+
+(* the same for the literal model of RunCycle, through the C02 refinement *)
+Theorem C12_model_cycle_equivariant :
+  forall k s s' t t',
+    Inv s -> Inv s' -> guards s -> guards s' -> cfg_of s' = cfg_of s ->
+    Rel s t -> Rel s' t' -> mrot (s_m s) k t t' ->
+    match run_cycle s, run_cycle s' with
+    | Ok (s1, r1, _), Ok (s1', r1', _) =>
+        exists t1 t1', Rel s1 t1 /\ Rel s1' t1' /\ mrot (s_m s) k t1 t1' /\ r1' = r1
+    | _, _ => False
+    end.
+Proof. exact model_cycle_equivariant. Qed.
+Print Assumptions C12_model_cycle_equivariant.
